@@ -1,5 +1,6 @@
 import MockeryModel.Tools.Tag
 import MockeryLemmas.Order
+import MockeryModel.Generated.Decide
 /-!
 # C20 — Release tagger: dry-run mutates nothing; only strictly newer versions are tagged
 
@@ -264,5 +265,31 @@ example :
     (Version.gt ⟨3,0,0,[.alnum [98], .num 10]⟩ ⟨3,0,0,[.alnum [98], .num 2]⟩ &&
      Version.gt ⟨3,0,0,[.alnum [114]]⟩ ⟨3,0,0,[.alnum [98], .num 10]⟩ &&
      Version.gt ⟨3,0,0,[]⟩ ⟨3,0,0,[.alnum [114]]⟩) = true := by decide
+
+/-! ### the gating of the model is the source's -/
+
+/-- exit status of the command for what `Tagger.Tag` returns: 0, 8 for `ErrNoNewVersion`, 1 for any other error -/
+def exitOfTag {α : Type} : Except String α → Exit
+  | .ok _ => .ok
+  | .error e => if e == "ErrNoNewVersion" then .nothingToDo else .error
+
+open Mockery.Generated.Decide in
+/-- `Tools.tag` gates as `Tagger.Tag` does, translated statement by statement from the current source
+(Generated/Decide.lean; opening the repository, reading the work tree and creating the tag are parameters that
+succeed here): the same exit status for every parser, repository, requested version and dry-run setting -/
+theorem tag_gating_is_the_translated_source (P : Parser) (r : Repo) (requested full major : String) (dry : Bool) :
+    exitOfTag (taggerTag requested (fun _ => some r) P.parse (fun r mj => largest P mj r.tags) (·.major) Version.gt
+      (fun r => some r) (fun r => some r) (·.clean) (fun _ => full) (fun _ _ => some ())) = (tag P r requested full major dry).2 := by
+  unfold taggerTag tag
+  cases P.parse requested with
+  | none => simp [exitOfTag, throw, throwThe, MonadExceptOf.throw]
+  | some req =>
+    simp only []
+    cases largest P req.major r.tags with
+    | none => simp [exitOfTag, throw, throwThe, MonadExceptOf.throw]
+    | some prev =>
+      simp only []
+      cases hg : req.gt prev <;> cases hc : r.clean <;> cases dry <;>
+        simp [exitOfTag, throw, throwThe, MonadExceptOf.throw, pure, Except.pure]
 
 end Mockery.C20
